@@ -1,5 +1,6 @@
 import PRV.Driver.C19
 import PRV.Driver.C01
+import PRV.Driver.C05
 import PRV.Driver.C14
 import PRV.Driver.C15
 import PRV.Driver.C10
@@ -18,6 +19,7 @@ def main (args : List String) : IO UInt32 := do
   match args with
   | ["model", "c01"] => run C01.machine; return 0
   | ["monitor", "c01"] => runMonitor C01.monitor; return 0
+  | ["monitor", "c05"] => runMonitor C05.monitor; return 0
   | ["model", "c14"] => run C14.machine; return 0
   | ["spec", "c14"] => run C14.machine; return 0
   | ["monitor", "c14"] => runMonitor C14.monitor; return 0
